@@ -316,6 +316,43 @@ static void run_cmd(const sim::Cmd &c, sim::Out &out)
     if (u + 1 == b.units.size())
       verdict = 1;
   }
+  // P7(b), C02 (and C03): a problem built around a known feasible plan is never rejected. The `ublock` part of the problem is
+  // solvable by construction (its goal can only be unified with its fact, whose argument range meets the goal's); a fresh solver
+  // reads it alone: a negative verdict is wrong whatever the rest of the problem looks like.
+  if (!b.block_text.empty() && (prop == "C02" || c.num("variants", 0)) && status == "OK" && viols.empty() && c.num("planted_block", 1) != 0)
+  {
+    ratio::solver *s3 = new ratio::solver();
+    int v3 = -1;
+    std::string how3;
+    try
+    {
+      s3->read(b.block_text);
+      v3 = s3->solve() ? 1 : 0;
+      how3 = "solve() == false";
+    }
+    catch (const ratio::unsolvable_exception &)
+    {
+      v3 = 0, how3 = "unsolvable_exception from read()";
+    }
+    catch (const ratio::inconsistency_exception &)
+    {
+      v3 = 0, how3 = "inconsistency_exception from read()";
+    }
+    catch (const std::exception &e)
+    {
+      if (std::string(e.what()).find("inconsistent") != std::string::npos)
+        v3 = 0, how3 = std::string("read(): ") + e.what();
+      else
+        cnt.inc("p7b.block_rejected_by_reader");
+    }
+    cnt.inc(v3 == 1 ? "p7b.planted_block_solved" : (v3 == 0 ? "p7b.planted_block_unsolvable" : "p7b.planted_block_not_read"));
+    log.ev("planted block -> " + std::to_string(v3));
+    if (v3 == 0)
+    {
+      PViolation v{"P7", "P7.planted_problem_rejected", "the planner answered '" + how3 + "' on a problem built around a known plan (the goal unified with the fact, their argument ranges intersect) | problem: " + one_line(b.block_text).substr(0, 600)};
+      (enabled_for(prop, v) ? viols : others).push_back(v);
+    }
+  }
   // P7(c), C02: semantically equivalent formulations get the same verdict. The whole problem is read again by a fresh
   // solver as ONE unit with its independent constraints in another (seeded) order, once plainly and once with a
   // tautology added. A verdict only counts when the search ended; a positive one only when the solution checks.
